@@ -483,6 +483,10 @@ class BlackbirdProgram:
                             "{}={}{}{}j".format(k, v.real, "+-"[int(v.imag < 0)], np.abs(v.imag))
                         )
 
+                    elif isinstance(v, sym.Expr):
+                        # keyword argument contains free parameters
+                        kwargs.append("{}={}".format(k, _format_symbolic(v)))
+
                     else:
                         kwargs.append("{}={}".format(k, _format_value(v)))
 
